@@ -86,6 +86,7 @@ CHECKS = {
          "Trusted: 'number word' = accepted by LangInterpreter::apply on a fresh builder.",
          "5 C18"),
 }
+FUZZ_PROPS = {"C02","C03","C06","C07","C09","C10","C11","C13","C15","C17","C18"}
 NOT_BUILT_REASON = "monitor designed in DESIGN.md section 5 but not built yet in this session; it will be claimed once its check exists"
 
 def main():
@@ -102,7 +103,7 @@ def main():
                 "replay_cmd_template": f"./check {p} --replay {{path}}",
                 "engine": "t2n-verif",
                 "level_claimed": {"category": "exploration", "text": c[2], "design_ref": "DESIGN.md section " + c[4]},
-                "level_note": c[3],
+                "level_note": c[3] + (" Thorough tier adds a coverage-guided leg: libFuzzer (cargo-fuzz, ASan build) chooses language/threshold/text with a lexicon dictionary and every execution is judged by this monitor's own oracle functions." if p in FUZZ_PROPS else ""),
                 "technique": c[1],
             })
         else:
